@@ -40,25 +40,60 @@ ENCODINGS = ["latin-1", "utf-16-le", "utf-16-be", "utf-32-le", "shift_jis", "cp1
              "cp1251", "gbk", "big5", "euc_jp", "iso2022_jp", "cp932", "utf-7"]
 
 
-def scripted_run(chunks, err_chunks=(), hide=None, encoding="utf-8", explicit=False, pty=False, read_size=None):
-    """real Runner.run over scripted reads; returns (stdout, stderr, mirror_out, mirror_err)"""
+class ListSink(list):
+    """a stream override that is a perfectly good file-like object but FALSY while nothing was written to it"""
+
+    def write(self, s):
+        self.append(s)
+
+    def flush(self):
+        pass
+
+    def getvalue(self):
+        return "".join(self)
+
+
+class NullishSink:
+    """a stream override whose truth value is always False"""
+
+    def __init__(self):
+        self.parts = []
+
+    def __bool__(self):
+        return False
+
+    def write(self, s):
+        self.parts.append(s)
+
+    def flush(self):
+        pass
+
+    def getvalue(self):
+        return "".join(self.parts)
+
+
+def scripted_run(chunks, err_chunks=(), hide=None, encoding="utf-8", explicit=False, pty=False, read_size=None, sink="stringio"):
+    """real Runner.run over scripted reads; returns (stdout, stderr, mirror_out, mirror_err[, leaked])"""
     import io
     from fakerunner import Scripted
     r = Scripted(out=list(chunks), err=list(err_chunks), pty=pty, finish_when=("drained"))
     if read_size:
         r.read_chunk_size = read_size
-    mo, me = io.StringIO(), io.StringIO()
+    mk = {"stringio": io.StringIO, "list": ListSink, "nullish": NullishSink}[sink]
+    mo, me = mk(), mk()
     kw = {}
     old = (sys.stdout, sys.stderr)
+    leak_o, leak_e = io.StringIO(), io.StringIO()
     if explicit:
         kw = {"out_stream": mo, "err_stream": me}
+        sys.stdout, sys.stderr = leak_o, leak_e  # with explicit streams nothing may reach the process-wide ones
     else:
         sys.stdout, sys.stderr = mo, me
     try:
         res = r.run("cmd", hide=hide, in_stream=False, encoding=encoding, **kw)
     finally:
         sys.stdout, sys.stderr = old
-    return res.stdout, res.stderr, mo.getvalue(), me.getvalue()
+    return res.stdout, res.stderr, mo.getvalue(), me.getvalue(), leak_o.getvalue() + leak_e.getvalue()
 
 
 def hidden(hide, explicit):
@@ -71,7 +106,10 @@ def oracle_scripted(case, got):
     enc = case.get("enc", "utf-8")
     whole_o = b"".join(bytes.fromhex(c) for c in case["chunks"])
     whole_e = b"".join(bytes.fromhex(c) for c in case.get("err", []))
-    so, se, mo, me = got
+    so, se, mo, me = got[:4]
+    if case.get("explicit") and len(got) > 4 and got[4]:
+        return "explicit out_stream/err_stream given (%s), yet %r was written to the process-wide sys.stdout/sys.stderr" % (
+            case.get("sink", "stringio"), got[4][:60])
     want_o = whole_o.decode(enc, "replace")
     want_e = "" if case.get("pty") else whole_e.decode(enc, "replace")
     if so != want_o:
@@ -89,7 +127,7 @@ def oracle_scripted(case, got):
 def run_scripted_case(case):
     return scripted_run([bytes.fromhex(c) for c in case["chunks"] if c], [bytes.fromhex(c) for c in case.get("err", []) if c],
                         hide=case.get("hide"), encoding=case.get("enc", "utf-8"), explicit=case.get("explicit", False),
-                        pty=case.get("pty", False), read_size=case.get("read_size"))
+                        pty=case.get("pty", False), read_size=case.get("read_size"), sink=case.get("sink", "stringio"))
 
 
 def splits(bs):
@@ -204,6 +242,7 @@ def run(ctx):
         cases.append({"kind": "scripted", "chunks": [c.hex() for c in ck], "err": [x.hex() for x in (ebs[:3], ebs[3:]) if x],
                       "hide": rng.choice([None, True, False, "out", "err", "both", "stdout", "stderr"]),
                       "explicit": rng.random() < 0.3, "pty": rng.random() < 0.2,
+                      "sink": rng.choice(["stringio", "stringio", "list", "nullish"]),
                       "enc": rng.choice(["utf-8"] * 6 + ENCODINGS),
                       "read_size": rng.choice([None, None, 1, 2, 3])})
     # structured family: for every codec, ASCII-only reads followed by a read that STARTS with a special unit
